@@ -106,8 +106,21 @@ Definition rm_rf (ls : list bytes) (p : bytes) : list bytes :=
                    | (_, None) => true
                    end) ls.
 
-Definition docker_of (ls : list bytes) (rms : list bytes) : bytes := join_lines (fold_left rm_rf rms ls).
+(* check_stdout_trim: the whole output of `docker diff` is trimmed (only ASCII white space is generated) *)
+Definition is_ws (c : N) : bool := (c =? 32) || ((9 <=? c) && (c <=? 13)).
 
-Definition clean_lines (ls : list bytes) : list bytes * bool * list bytes :=
-  let '(rms, ok) := clean_container (join_lines ls) (docker_of ls) in
-  (rms, ok, fold_left rm_rf rms ls).
+Fixpoint trim_front (s : bytes) : bytes :=
+  match s with
+  | c :: r => if is_ws c then trim_front r else s
+  | [] => []
+  end.
+
+Definition trim (s : bytes) : bytes := rev (trim_front (rev (trim_front s))).
+
+(* `docker diff` prints one entry `<type> <path>` per line, the path raw - whatever bytes it holds *)
+Definition docker_of (es : list bytes) (rms : list bytes) : bytes := trim (join_lines (fold_left rm_rf rms es)).
+
+(* es: what the container holds, as entries `<type> <path>` *)
+Definition clean_lines (es : list bytes) : list bytes * bool * list bytes :=
+  let '(rms, ok) := clean_container (trim (join_lines es)) (docker_of es) in
+  (rms, ok, fold_left rm_rf rms es).
